@@ -563,6 +563,13 @@ impl<'de, 't, 'a> de::Deserializer<'de> for &'a mut Deserializer<'de, 't> {
                     None => self.deserialize_any(visitor),
                 }
             }
+            // Tuples are records whose fields are stored in the order of the type's fields
+            (ValueRef::Data(data), &Type::Record(_)) => {
+                let iter = (0..data.len())
+                    .map(|i| data.get_variant(i).unwrap())
+                    .zip(typ.row_iter().map(|field| &field.typ));
+                visitor.visit_seq(SeqDeserializer::new(self.state.clone(), iter))
+            }
             // `deserialize_any` hands arrays back to this function so it can't make progress
             (ValueRef::Array(_), _) => Err(VmError::Message(format!(
                 "Unable to deserialize `{}` as a sequence",
